@@ -252,8 +252,8 @@ def prepare(line_events=True):
     if _prepared:
         return
     _prepared = True
-    if "/repo" not in sys.path:
-        sys.path.insert(0, "/repo")
+    if I.REPO not in sys.path:
+        sys.path.insert(0, I.REPO)
     logging.disable(logging.CRITICAL)
     import pynetdicom  # noqa: F401
 
